@@ -58,3 +58,41 @@ Proof. apply firstn_all2. Qed.
 Lemma bytes_ok_cons x l : bytes_ok (x :: l) <-> x < 256 /\ bytes_ok l.
 Proof. unfold bytes_ok. split; [intros H; inversion H; auto|intros [? ?]; constructor; auto]. Qed.
 Lemma bytes_ok_nil : bytes_ok []. Proof. constructor. Qed.
+
+(* ---- more list facts ---- *)
+Lemma blit_nil off (l : bytes) : blit off [] l = l.
+Proof. revert off; induction l as [|x xs IH]; intros [|o]; cbn; auto. f_equal. apply IH. Qed.
+Lemma skipn_skipn' {A} a b (l : list A) : skipn a (skipn b l) = skipn (b + a) l.
+Proof. revert l; induction b as [|b IH]; intros l; cbn; auto. destruct l; [rewrite skipn_nil; reflexivity|apply IH]. Qed.
+Lemma firstn_app_exact {A} (l1 l2 : list A) : firstn (length l1) (l1 ++ l2) = l1.
+Proof. induction l1; cbn; auto. f_equal; auto. Qed.
+Lemma skipn_app_exact {A} (l1 l2 : list A) : skipn (length l1) (l1 ++ l2) = l2.
+Proof. induction l1; cbn; auto. Qed.
+Lemma blit_app_r (a : bytes) k src l : blit (length a + k) src (a ++ l) = a ++ blit k src l.
+Proof. induction a as [|x a IH]; cbn; auto. f_equal. apply IH. Qed.
+Lemma blit_app_r0 (a : bytes) src l : blit (length a) src (a ++ l) = a ++ blit 0 src l.
+Proof. rewrite <- (Nat.add_0_r (length a)). apply blit_app_r. Qed.
+Lemma skipn_app_len {A} n (l1 l2 : list A) : length l1 = n -> skipn n (l1 ++ l2) = l2.
+Proof. intros <-. apply skipn_app_exact. Qed.
+Lemma firstn_app_len {A} n (l1 l2 : list A) : length l1 = n -> firstn n (l1 ++ l2) = l1.
+Proof. intros <-. apply firstn_app_exact. Qed.
+Lemma u8_lt x : u8 x < 256. Proof. unfold u8. lia. Qed.
+
+(* ---- symbolic evaluation of the slice-level model ----
+   [run] alternates controlled computation ([cbn] with the comparison functions blocked) with a
+   case analysis of the next bounds check, whose impossible branch is closed by [lia]. *)
+Ltac lenlia := cbn [length arr len cap] in *; unfold cap in *; cbn [length arr len] in *;
+               rewrite ?blit_length, ?set_nth_length, ?app_length, ?repeat_length in *; cbn [length] in *; lia.
+Ltac cond1 :=
+  match goal with
+  | |- context [Nat.ltb ?a ?b] =>
+      let H := fresh "C" in destruct (Nat.ltb_spec a b) as [H|H]; [try (exfalso; lenlia) | try (exfalso; lenlia)]; clear H
+  | |- context [Nat.leb ?a ?b] =>
+      let H := fresh "C" in destruct (Nat.leb_spec a b) as [H|H]; [try (exfalso; lenlia) | try (exfalso; lenlia)]; clear H
+  end.
+Ltac ev_hook := idtac.
+Ltac ev := cbn -[Nat.ltb Nat.leb N.to_nat N.of_nat]; rewrite ?blit_nil; ev_hook.
+Ltac run := repeat (ev; cond1); ev.
+(* the same with Nat.sub blocked (for models that compute padding lengths) *)
+Ltac evs := cbn -[Nat.ltb Nat.leb Nat.sub N.to_nat N.of_nat]; rewrite ?blit_nil; ev_hook.
+Ltac runs := repeat (evs; cond1); evs.
